@@ -37,20 +37,23 @@ Record context := mkCtx {
   cx_comp : segmentation;
   cx_opts : list (bytes * bool);   (* map<string,bool>; absent = false *)
   cx_err : option err;
-  cx_hist : hist                   (* commit_history_ (abstracted) *)
+  cx_hist : hist;                  (* commit_history_ (abstracted) *)
+  cx_conn : bool                   (* AsciiComposer::connection_ is connected to update_notifier_ (inline ascii mode) *)
 }.
 
 Definition ctx_with_input (c : context) (i : bytes) (k : nat) : context :=
-  mkCtx i k (cx_comp c) (cx_opts c) (cx_err c) (cx_hist c).
+  mkCtx i k (cx_comp c) (cx_opts c) (cx_err c) (cx_hist c) (cx_conn c).
 Definition ctx_with_comp (c : context) (sg : segmentation) : context :=
-  mkCtx (cx_input c) (cx_caret c) sg (cx_opts c) (cx_err c) (cx_hist c).
+  mkCtx (cx_input c) (cx_caret c) sg (cx_opts c) (cx_err c) (cx_hist c) (cx_conn c).
 Definition ctx_with_opts (c : context) (o : list (bytes * bool)) : context :=
-  mkCtx (cx_input c) (cx_caret c) (cx_comp c) o (cx_err c) (cx_hist c).
+  mkCtx (cx_input c) (cx_caret c) (cx_comp c) o (cx_err c) (cx_hist c) (cx_conn c).
 Definition ctx_with_hist (c : context) (h : hist) : context :=
-  mkCtx (cx_input c) (cx_caret c) (cx_comp c) (cx_opts c) (cx_err c) h.
+  mkCtx (cx_input c) (cx_caret c) (cx_comp c) (cx_opts c) (cx_err c) h (cx_conn c).
+Definition ctx_with_conn (c : context) (b : bool) : context :=
+  mkCtx (cx_input c) (cx_caret c) (cx_comp c) (cx_opts c) (cx_err c) (cx_hist c) b.
 Definition ctx_fail (c : context) (e : err) : context :=
   mkCtx (cx_input c) (cx_caret c) (cx_comp c) (cx_opts c)
-        (match cx_err c with Some x => Some x | None => Some e end) (cx_hist c).
+        (match cx_err c with Some x => Some x | None => Some e end) (cx_hist c) (cx_conn c).
 Definition ctx_check (c : context) (ok : bool) (e : err) : context := if ok then c else ctx_fail c e.
 
 (** option names *)
